@@ -296,6 +296,11 @@ def gen_case(rng, features=None, max_datasets=4, allow_full=True, allow_two_grou
             pl = f"rel.{len(case['relations']) + 1}"
             params[pl] = {"value": float(np.round(rng.uniform(0.3, 1.8), 3)), "vary": bool(rng.integers(2))}
             case["relations"].append({"source": src, "target": tgt, "parameter": pl, "interval": interval()})
+        if case["relations"] and rng.integers(3) == 0:
+            # a constraint on the SOURCE of a relation (both rules are satisfiable together: where the source is
+            # forced to zero the related target is zero as well); a constraint on a relation's target would contradict it
+            case["constraints"].append({"type": str(rng.choice(["zero", "only"])), "target": case["relations"][0]["source"], "interval": interval()})
+            F["constraint_on_relation_source"] = True
         for _ in range(npen):
             src, tgt = [str(x) for x in rng.choice(used_labels, 2, replace=False)]
             pl = f"pen.{len(case['penalties']) + 1}"
